@@ -613,6 +613,7 @@ pub async fn run_network(sc: Scenario) -> NetResult {
     let mut max_rdelay = 0u64;
     let mut frozen_nodes: HashSet<usize> = HashSet::new();
     let mut held_protos: HashSet<usize> = HashSet::new();
+    let mut held_mgrs: HashSet<usize> = HashSet::new();
     for st in &sc.steps {
         if st.t > 0 {
             tokio::time::sleep(Duration::from_millis(st.t)).await;
@@ -669,6 +670,21 @@ pub async fn run_network(sc: Scenario) -> NetResult {
                     net.kill(st.o);
                     if let Some(Some(tx)) = obs_tx.get(st.o - 1) {
                         let _ = tx.send(ObsCmd::Die);
+                    }
+                }
+            }
+            // hold / release only the application loop of a node (Litep2p::next_event = the TransportManager)
+            "freeze_mgr" | "thaw_mgr" => {
+                if st.o >= 1 && st.o <= n {
+                    if let Some(e) = &net.execs[st.o - 1] {
+                        log.ev(st.o, "d", json!({"e": "cut", "from": st.o, "to": st.o, "dir": st.a, "after": 0}));
+                        e.freeze_mgr(st.a == "freeze_mgr");
+                        net.count("mgr_hold_steps");
+                        if st.a == "freeze_mgr" {
+                            held_mgrs.insert(st.o);
+                        } else {
+                            held_mgrs.remove(&st.o);
+                        }
                     }
                 }
             }
@@ -731,6 +747,11 @@ pub async fn run_network(sc: Scenario) -> NetResult {
     for node in held_protos {
         if let Some(e) = &net.execs[node - 1] {
             e.freeze_proto(false);
+        }
+    }
+    for node in held_mgrs {
+        if let Some(e) = &net.execs[node - 1] {
+            e.freeze_mgr(false);
         }
     }
     // a node still frozen at the end of the script is a dropped node: whatever it asked for itself carries
